@@ -107,6 +107,10 @@ func cmdVC(args []string) {
 	for _, o := range smokes {
 		if o.Result == "unsat" {
 			fmt.Printf("VACUOUS  %s: false is provable at %s\n", o.Name, o.Pos)
+			if *dump != "" {
+				os.MkdirAll(*dump, 0o755)
+				os.WriteFile(filepath.Join(*dump, sanitize(o.Name)+".smt2"), []byte(o.Query()), 0o644)
+			}
 		}
 	}
 	fmt.Printf("%d smoke checks\n", len(smokes))
